@@ -9,12 +9,14 @@ CONSTANTS
   MaxCalls = 1
   CarryLayers = {"http", "json", "signed"}
   X509Chains = {"x509"}
-  KeyOptions = {"der", "pem", "bothSame", "bothDifferent"}
+  KeyOptions <- AllKeyOptions
+  ShapeChains <- AllShapeChains
+  ProbeClasses = {"valid", "validEmptyTree", "validWithExtensions", "sigCorrupt", "sigByOtherKey", "sigByOtherKeyType", "sigMissing", "sigAlgMismatch", "logIDForeign", "idLen0", "sigOverOtherChain", "sigOverSubmittedNotFinal", "sigOverOtherType", "sigOverOtherRoot", "notJSON"}
   ReplaySources = {}
 INIT Init
 NEXT Next
 VIEW ExportView
 ACTION_CONSTRAINT CaseBound
-INVARIANTS TypeOK OnlyVerifiedSTH OnlyVerifiedSCT ExportCase ExportEntryCases
+INVARIANTS TypeOK OnlyVerifiedSTH OnlyVerifiedSCT ConstructionLaw ExportCase ExportEntryCases ExportKeyCases
 PROPERTIES OnlyFrom200 ErrorsCarryResponse NoPartialResults
 CHECK_DEADLOCK FALSE
